@@ -367,6 +367,7 @@ class Runner(object):
             allx.append(('logged', '%s %s: %s' % (tlabel, logger, msg[:80]),
                          e, None))
         res.all_exceptions = allx
+        res.extra['handler_exc'] = list(w.handler_exceptions)
         seen = set()
         for kind, where, e, tb in allx:
             if _is_mistral_exc(e):
